@@ -122,6 +122,11 @@ func (w *world) observe(ctx sdk.Context) map[string]any {
 		panic(err)
 	}
 	o["last"] = int(last)
+	leh := int(k.GetLastObservedEthereumBlockHeight(ctx, chain).EthereumBlockHeight)
+	if leh >= 1000 {
+		leh -= 1000
+	}
+	o["lastEth"] = leh
 	nonceOf, power, bonded := []int{}, []int{}, []bool{}
 	for _, v := range e.Vals {
 		n, err := k.GetLastSkywayNonceByValidator(ctx, v.Val, chain)
